@@ -209,6 +209,11 @@ func runGrpcCase(t *testing.T, c gCase) (rows, wrows []string, problems []string
 					opts = append(opts, state.WithLabelQuery(resource.LabelEqual("k", "v")), state.WithLabelQuery(resource.LabelExists("k", resource.NotMatches)))
 				case "id":
 					opts = append(opts, state.WithIDQuery(resource.IDRegexpMatch(regexpFor(o.ID))))
+				case "or-empty":
+					// an alternative without terms matches everything, so the whole selector does
+					opts = append(opts, state.WithLabelQuery(resource.LabelEqual("k", o.Label)), state.WithLabelQuery())
+				case "empty-or":
+					opts = append(opts, state.WithLabelQuery(), state.WithLabelQuery(resource.LabelExists("k", resource.NotMatches)))
 				case "raw-eq2", "raw-noteq2", "raw-lt2", "raw-in0", "raw-exists1", "raw-eq2+in":
 					// terms no constructor builds (several values on a single-value operator, none on a set operator):
 					// only a verbatim query carries them; remote and wrapped state must still agree
@@ -412,7 +417,7 @@ func genGrpcCase(r *rng) gCase {
 		case x < 70:
 			o.Op = "list"
 			o.Query = pick(r, []string{"", "eq", "exists", "notexists", "in", "id", "noteq+exists", "notexists+in", "exists+noteq", "notin+exists+eq", "or",
-				"raw-eq2", "raw-noteq2", "raw-lt2", "raw-in0", "raw-exists1", "raw-eq2+in"})
+				"raw-eq2", "raw-noteq2", "raw-lt2", "raw-in0", "raw-exists1", "raw-eq2+in", "or-empty", "empty-or"})
 		case x < 80:
 			o.Op = "teardown"
 		case x < 86:
